@@ -89,25 +89,25 @@ class _GR(collections.namedtuple("GRange", ["chr", "start", "end"])):
         return (self.chr, self.start - pad_left, self.end + pad_right)
 
 
-def profile_from(repo, table, cnv, custom=True):
+def profile_from(repo, table, cnv, custom=True, cn=None):
     """Profile.get_sam_profile_data folded whole on a read set that realises the depth table (one 1M read per unit of
     depth), with the custom (or default) copy-number-neutral region."""
     f = repo.func("profile::Profile.get_sam_profile_data")
-    cn = _GR(*CN)
+    cn = _GR(*(cn or CN))
     regions = {("G", r, gi): _GR(*rng) for gi, gr in enumerate(REGIONS) for r, rng in gr.items()}
     reads = []
     for p in table:
         reads += [read_stub([(0, 1)], start=p, seq="A")] * spec_depth(table, p)
     for p, c in cnv.items():
-        reads += [read_stub([(0, 1)], start=p, seq="A")] * c
+        reads += [read_stub([(0, 1)], start=p, seq="A", ref_name=cn.chr)] * c
     opened = []
 
     def fetch(region=None):
-        return [r for r in reads if region is None or region[1] <= r.reference_start < region[2]]
+        return [r for r in reads if region is None or (region[0] == r.reference_name and region[1] <= r.reference_start < region[2])]
 
     def open_(path, reference_filename=None):
         opened.append(path)
-        return Obj(header={"SQ": [{"SN": "22"}]}, fetch=fetch)
+        return Obj(header={"SQ": [{"SN": "22"}, {"SN": "21"}]}, fetch=fetch)
 
     params = [a.arg for a in f.args.args]
     env = {"sam_path": "x.bam", "ref_path": None, "regions": regions, "cn_region": cn if custom else None, "genome": "hg19", "params": {}}
@@ -182,6 +182,33 @@ def r1(repo, res):
     res.ob("C07.R1", repo.func("profile::Profile.get_sam_profile_data"), f, ok,
            expected="profile written from a depth table, then the same table normalised against it -> exactly 2.0 in every covered region",
            found=str({f"{g}:{r}": round(v_, 6) for (g, r), v_ in outp.items()}), key="self-profile-2.0")
+    # sparse sample (regions with total depth 1 and 0) and a neutral region on another chromosome at the gene's own coordinates
+    try:
+        x = (40, 40)
+        sparse = {10: {"_": [x]}, 41: {"_": [x, x]}, 45: {"_": [x], "insT": [x] * 3}}
+        cn21 = GRange("21", 9, 15)
+        cnv21 = collections.defaultdict(int, {9: 2, 10: 5, 12: 1, 14: 3})
+        ds = profile_from(repo, sparse, cnv21, cn=cn21)
+        fs = repo.func("coverage::Coverage._normalize_coverage")
+        prof_ = Obj(cn_region=cn21, data=ds, neutral_value=ds["neutral"]["value"])
+        me_ = Obj(profile=prof_, _cnv_coverage=cnv21, gene=Obj(regions=REGIONS, name="G"), _coverage=sparse, _indels=None, total=real_total(repo, sparse), _region_coverage={})
+        ks, vs = Evaluator({"self": me_}).run(fn_body(fs))
+        outs = me_._region_coverage
+        want_doc = {"e1": [1, 2], "i1": [0, 0], "e2": [0, 1]}
+        covered = {k_: v_ for k_, v_ in outs.items() if ds["G"][k_[1]][k_[0]]}
+        oks = ks != "raise" and {r_: list(v_) for r_, v_ in ds["G"].items()} == want_doc and ds["neutral"]["value"] == 11 and list(ds["neutral"]["hg19"]) == list(cn21) \
+            and len(covered) == 3 and all(abs(v_ - 2.0) < 1e-12 for v_ in covered.values())
+        founds = f"profile document {dict(ds['G'])}, neutral {ds['neutral']}; normalised {({f'{g}:{r}': round(v_, 6) for (g, r), v_ in outs.items()})}"
+    except Unfoldable as e:
+        res.err("C07.R1", f"profile writer / normalisation outside folding language: {e}")
+        return
+    except (Raised, KeyError, TypeError, IndexError) as e:
+        oks, founds = False, f"raises {e}"
+    res.ob("C07.R1", repo.func("profile::Profile.get_sam_profile_data"), f, oks,
+           expected="sparse sample, neutral region on chromosome 21 at the coordinates of a gene region on 22: the profile holds the per-chromosome sums "
+                    "(regions e1 [1, 2], e2 [0, 1], neutral 11) and the same sample normalised against it reads exactly 2.0 in the three covered regions (total depth 1 and 2)",
+           found=founds, clause="equals exactly 2.0 in every region the profile covers when the sample is the very sample the profile was generated from",
+           key="self-profile-2.0:sparse")
     # an alignment file given as the profile: Profile.load scans it (the same routine) with the user's neutral region
     from checks._profile import ProfileModel as _PM
 
@@ -399,6 +426,16 @@ def run(repo, res):
 
 
 MUTANTS = [
+    dict(name="R1 profile depth floored at one (seeded C07_c3 shape)", module="coverage", expect="C07.R1",
+         old="                p /= 2  # profile has 2 copies, so divide it with 2 for normalization\n                self._region_coverage[gene, region] = (ratio * s / p) if p != 0 else 0.0",
+         new="                p = max(p / 2, 1)\n                self._region_coverage[gene, region] = ratio * s / p"),
+    dict(name="R1 profile depth table keyed by position only (seeded C07_c2 shape)", module="profile", expect="C07.R1",
+         edits=[("        cov: dict = defaultdict(lambda: defaultdict(int))", "        cov: dict = defaultdict(int)"),
+                ("                                for i in range(size):\n                                    cov[c][start + i] += 1\n                                start += size\n                            elif op == 1:",
+                 "                                for i in range(size):\n                                    cov[start + i] += 1\n                                start += size\n                            elif op == 1:"),
+                ("                                for i in range(size):\n                                    cov[c][start + i] += 1\n                                start += size\n                                s_start += size",
+                 "                                for i in range(size):\n                                    cov[start + i] += 1\n                                start += size\n                                s_start += size"),
+                ("                d[g][r][ri] = sum(cov[c][i] for i in range(s, e))", "                d[g][r][ri] = sum(cov[i] for i in range(s, e))")]),
     dict(name="R1 factor 2 dropped", module="coverage", expect="C07.R1",
          old="                p /= 2  # profile has 2 copies, so divide it with 2 for normalization\n", new=""),
     dict(name="R1 ratio inverted", module="coverage", expect="C07.R1",
